@@ -18,6 +18,30 @@
 (*     fields that have a value (or are required), each with its value normalised per *)
 (*     field type, in field order.                                                    *)
 (* Values are typed: [k : kind, v : sequence of symbols]. Symbols as in Stanza.tla.   *)
+(*                                                                                    *)
+(* AMBIGUOUS VARIABLES.  XEP-0004 asks for a var that is unique within the form, but  *)
+(* nothing stops a peer from sending two fields with one var (of the same or of       *)
+(* different types), and the field constructors accept it as well.  The documentation *)
+(* of the package speaks of "the form field" with that name and says nothing for this *)
+(* case, so for a variable that names several fields the specification only demands   *)
+(* what holds under EVERY reading: no operation panics; Set fails if the value fits   *)
+(* none of the fields of that name and succeeds if it fits all of them; Get after a   *)
+(* successful Set returns the value; Raw returns the values of one of them; a fixed   *)
+(* field is never submitted; the submission is well-formed and of type submit.  What  *)
+(* an unset ambiguous variable defaults to, and whether and with what values the      *)
+(* fields of that name appear in a submission, is left open.  Every law about the     *)
+(* OTHER variables of the same form holds unchanged.  Each action takes what the      *)
+(* operation returned as a parameter and states whether that is acceptable; the       *)
+(* design check draws the parameter from a finite set of candidates, the trace        *)
+(* specification (TrForm) takes it from the recorded event.                           *)
+(*                                                                                    *)
+(* deviations (Dev), each must make the design check fail:                            *)
+(*   "ScannerLimit"      the lines of a submitted text-multi value are cut with a     *)
+(*                       scanner whose longest token is 65535 bytes: the long line    *)
+(*                       and everything after it is lost (C19_SubmitLossless);        *)
+(*   "EncodeByFieldType" a submission converts the value looked up by NAME with the   *)
+(*                       Go type that goes with the field's OWN type: a panic when a  *)
+(*                       field is shadowed by one of another kind (C19_NoPanic).      *)
 EXTENDS Codec
 
 CONSTANT MaxOps
@@ -39,14 +63,19 @@ DocTypeAttr == [form |-> <<"form">>, result |-> <<"result">>, submit |-> <<"subm
 TV(k, v) == [k |-> k, v |-> v]
 NoVal == TV("unset", <<>>)
 Nil == TV("nil", <<>>)
-(* the Go values offered to Set: bool, string, jid.JID, []jid.JID, []string, and an int (fits nothing) *)
+Undef == TV("undefined", <<>>)      \* the specification has no name for the value (texts outside the symbol table)
+(* the Go values offered to Set: bool, string, jid.JID, []jid.JID, []string, and an int (fits nothing); *)
+(* strings also at the length boundaries: one long line, a long line among / before short lines, many   *)
+(* short lines (Stanza.tla LongSym)                                                                      *)
+FormLongs == {"L_4096", "L_65535", "L_65536", "L_a_65536_b", "L_65536_a_b", "L_many"}
 SetValues == {TV("bool", <<"S_true">>), TV("bool", <<"S_false">>),
               TV("string", <<"S_empty">>), TV("string", <<"S_a">>), TV("string", <<"S_xml">>),
               TV("string", <<"S_anb">>), TV("string", <<"S_nl">>), TV("string", <<"S_crlf">>),
               TV("jid", <<"J_fullx">>), TV("jid", <<"J_zero">>),
               TV("jids", <<>>), TV("jids", <<"J_bare", "J_full">>),
-              TV("strings", <<>>), TV("strings", <<"S_a", "S_empty", "S_xml">>),
+              TV("strings", <<>>), TV("strings", <<"S_a", "S_empty", "S_xml">>), TV("strings", <<"S_a", "L_65536">>),
               TV("int", <<"N_7">>)}
+             \cup {TV("string", <<l>>) : l \in FormLongs}
 
 F(ft, var, req, def) == [ft |-> ft, var |-> var, req |-> req, def |-> def]
 Configs == {
@@ -55,12 +84,30 @@ Configs == {
     F("list-multi", "vlm", FALSE, <<"S_a", "S_b">>), F("list-single", "vls", FALSE, <<>>)>>,
   <<F("hidden", "vh", FALSE, <<"S_a">>), F("text-private", "vp", FALSE, <<>>), F("boolean", "vb", TRUE, <<"S_1">>),
     F("text-multi", "vm", FALSE, <<"S_a", "S_b">>)>>,
-  <<>>}                                 \* a form without fields (form.New(), a cancellation, an empty result)
-Vars == {"vb", "vt", "vm", "vj", "vjm", "vlm", "vls", "vh", "vp", "nofield", ""}   \* "" is the name of a fixed field
+  <<>>,                                 \* a form without fields (form.New(), a cancellation, an empty result)
+  \* defaults at a length boundary: a long line among the lines of a text-multi field, a long single value
+  <<F("text-multi", "vm", FALSE, <<"S_a", "L_65536", "S_b">>), F("text-single", "vt", TRUE, <<"L_65536">>)>>,
+  \* ambiguous variables: two fields of one name whose types take DIFFERENT Go values, in both orders, with and
+  \* without defaults, required or not; next to them a field with a name of its own
+  <<F("boolean", "d1", FALSE, <<"S_1">>), F("text-single", "d1", TRUE, <<>>),
+    F("jid-single", "d2", FALSE, <<"S_jfull">>), F("jid-multi", "d2", FALSE, <<>>)>>,
+  <<F("text-single", "d1", TRUE, <<"S_a">>), F("boolean", "d1", FALSE, <<>>),
+    F("list-multi", "d2", FALSE, <<"S_a", "S_b">>), F("list-single", "d2", FALSE, <<>>), F("text-single", "u", TRUE, <<>>)>>,
+  <<F("text-multi", "d1", TRUE, <<>>), F("list-multi", "d1", FALSE, <<>>),
+    F("hidden", "d2", FALSE, <<"S_a">>), F("jid-single", "d2", FALSE, <<>>)>>,
+  \* two fixed fields (both have the empty name: legal and common), a name shared by THREE fields, a name shared
+  \* by two fields of the SAME type
+  <<F("fixed", "", FALSE, <<"S_a">>), F("fixed", "", FALSE, <<"S_b">>),
+    F("text-multi", "d1", FALSE, <<"S_a", "S_b">>), F("jid-multi", "d1", TRUE, <<"S_jbare">>), F("boolean", "d1", FALSE, <<>>),
+    F("text-single", "d2", FALSE, <<"S_a">>), F("text-single", "d2", TRUE, <<"S_b">>)>>}
+Vars == {"vb", "vt", "vm", "vj", "vjm", "vlm", "vls", "vh", "vp", "d1", "d2", "u", "nofield", ""}   \* "" is the name of a fixed field
+(* the variables an operation is applied to: the form's own and one that names no field (every other name behaves like it) *)
+VarsOf(c) == {c[i].var : i \in 1..Len(c)} \cup {"nofield"}
 
-FieldOf(c, var) == IF \E i \in 1..Len(c) : c[i].var = var
-                   THEN <<c[CHOOSE i \in 1..Len(c) : c[i].var = var /\ \A j \in 1..(i - 1) : c[j].var # var]>> ELSE <<>>
-IsField(c, var) == FieldOf(c, var) # <<>>
+Named(c, var) == {i \in 1..Len(c) : c[i].var = var}
+IsField(c, var) == Named(c, var) # {}
+Amb(c, var) == Cardinality(Named(c, var)) > 1
+TheField(c, var) == c[CHOOSE i \in Named(c, var) : TRUE]        \* of a variable that names exactly one field
 
 (* which Go type a field type accepts (form.Data.Set) *)
 Fits(ft, k) ==
@@ -72,13 +119,17 @@ Fits(ft, k) ==
     [] OTHER -> FALSE                                   \* fixed: "cannot set fixed field"
 
 JidStr(j) == SymOf(JidSym[j])                            \* the string form of an address symbol
-IsJidStr(sy) == \E j \in DOMAIN JidSym : JidSym[j] = StrSym[sy] /\ JidSym[j] # <<>>
+IsJidStr(sy) == sy \in DOMAIN StrSym /\ \E j \in DOMAIN JidSym : JidSym[j] = StrSym[sy] /\ JidSym[j] # <<>>
 JidOfStr(sy) == CHOOSE j \in DOMAIN JidSym : JidSym[j] = StrSym[sy]
 TrueStr == {"S_true", "S_1"}
 FalseStr == {"S_false", "S_0"}
 
+(* the field's own values are texts the symbol table has no name for: the specification cannot say what Get returns *)
+DefUndef(f) == (\E i \in 1..Len(f.def) : ~Known(f.def[i]))
+               \/ (f.ft = "text-multi" /\ Len(f.def) > 1 /\ JoinSyms(f.def, 10) = "S_undefined")
 (* the default of an unset field, derived from the field's own values (form.Data.Get) *)
 Default(f) ==
+  IF DefUndef(f) THEN Undef ELSE
   CASE f.ft = "boolean" ->
          LET ok == SelectSeq(f.def, LAMBDA x : x \in TrueStr \cup FalseStr)
          IN IF ok = <<>> THEN NoVal ELSE TV("bool", <<IF ok[1] \in TrueStr THEN "S_true" ELSE "S_false">>)
@@ -89,17 +140,45 @@ Default(f) ==
     [] f.ft = "jid-multi" ->
          LET ok == SelectSeq(f.def, IsJidStr) IN IF ok = <<>> THEN NoVal ELSE TV("jids", [i \in 1..Len(ok) |-> JidOfStr(ok[i])])
     [] f.ft = "text-multi" ->
-         IF f.def = <<>> THEN NoVal ELSE TV("string", <<SymOf(JoinNL([i \in 1..Len(f.def) |-> Cps(f.def[i])]))>>)
+         IF f.def = <<>> THEN NoVal ELSE TV("string", <<JoinSyms(f.def, 10)>>)
     [] f.ft = "list-multi" -> IF f.def = <<>> THEN NoVal ELSE TV("strings", f.def)
     [] OTHER -> NoVal                                   \* fixed: "A submission of type fixed has no value."
 
-(* Get(var): the set value, else the default of the field, else nothing *)
+(* A field is FREE where the specification cannot or must not say what Get returns for its name: the name is *)
+(* ambiguous, or the field's own values are texts without a name (only after decoding a submission that      *)
+(* held fields of an ambiguous name)                                                                          *)
+Free(c, i) == Amb(c, c[i].var) \/ DefUndef(c[i])
+FreeVar(c, var) == \E i \in Named(c, var) : Free(c, i)
+
+(* Get(var) for a variable that is not free: the set value, else the default of the field, else nothing *)
 GetVal(c, vs, var) ==
   IF vs[var] # NoVal THEN vs[var]
-  ELSE IF IsField(c, var) THEN Default(FieldOf(c, var)[1]) ELSE NoVal
+  ELSE IF IsField(c, var) THEN Default(TheField(c, var)) ELSE NoVal
+
+(* ---- Set: may the call report this error? *)
+SetErrs(c, var, tv) ==
+  LET N == Named(c, var) IN
+  IF N = {} THEN {FALSE}                                           \* "It is permitted to send back fields that did not exist"
+  ELSE IF \A i \in N : Fits(c[i].ft, tv.k) THEN {FALSE}
+  ELSE IF \A i \in N : ~Fits(c[i].ft, tv.k) THEN {TRUE} ELSE BOOLEAN   \* fits some of the fields of that name only
+(* ---- Get: may the call return res (NoVal: ok = false)? *)
+GetOK(c, vs, var, res) ==
+  IF vs[var] # NoVal THEN res = vs[var]
+  ELSE IF FreeVar(c, var) THEN TRUE
+  ELSE res = GetVal(c, vs, var)
+GetCands(c, vs, var) ==
+  IF vs[var] # NoVal THEN {vs[var]}
+  ELSE IF IsField(c, var) THEN ({Default(c[i]) : i \in Named(c, var)} \ {Undef}) \cup (IF FreeVar(c, var) THEN {NoVal} ELSE {})
+  ELSE {NoVal}
+(* ---- Raw: the values of a field of that name as they are *)
+RawOK(c, var, res) == IF IsField(c, var) THEN \E i \in Named(c, var) : res = c[i].def ELSE res = <<>>
+RawCands(c, var) == IF IsField(c, var) THEN {c[i].def : i \in Named(c, var)} ELSE {<<>>}
 
 (* the <value/> elements a typed value becomes in a submission, per field type *)
-LinesOf(sy) == LET ls == SplitLines(Cps(sy), <<>>) IN [i \in 1..Len(ls) |-> SymOf(ls[i])]
+(* deviation ScannerLimit: a line of 65536 bytes or more ends the scan *)
+RECURSIVE ScanPrefix(_, _)
+ScanPrefix(ls, i) == IF i > Len(ls) \/ SymBytes(ls[i]) >= 65536 THEN <<>> ELSE <<ls[i]>> \o ScanPrefix(ls, i + 1)
+LinesOf(sy) == IF "ScannerLimit" \in Dev THEN ScanPrefix(LineSyms(sy), 1) ELSE LineSyms(sy)
 SubVals(ft, tv) ==
   CASE tv.k = "bool" -> tv.v
     [] tv.k = "string" -> IF ft = "text-multi" THEN LinesOf(tv.v[1]) ELSE tv.v
@@ -110,10 +189,24 @@ SubVals(ft, tv) ==
 (* empty values may or may not be written (the property is silent): both accepted *)
 AccVals(ft, tv) == {SubVals(ft, tv), NonEmpty(SubVals(ft, tv))}
 
-(* the fields of a submission: not fixed, and (has a value or is required) *)
-Submitted(c, vs) == SelectSeq(c, LAMBDA f : f.ft # "fixed" /\ (GetVal(c, vs, f.var) # NoVal \/ f.req))
-SubmitOK(c, vs) == \A i \in 1..Len(c) : c[i].req => GetVal(c, vs, c[i].var) # NoVal
-(* acceptable value lists of the i-th submitted field *)
+(* ---- Submit.  idx: the fields of the submission as indices into cfg, in order. *)
+(* A field that is not free is submitted iff it is not fixed and (has a value or is required); a free field *)
+(* that is not fixed may or may not be there.                                                                *)
+HasVal(c, vs, i) == GetVal(c, vs, c[i].var) # NoVal
+MustSubmit(c, vs, i) == ~Free(c, i) /\ c[i].ft # "fixed" /\ (HasVal(c, vs, i) \/ c[i].req)
+MaySubmit(c, vs, i) == c[i].ft # "fixed" /\ (Free(c, i) \/ HasVal(c, vs, i) \/ c[i].req)
+RECURSIVE Asc(_, _)
+Asc(lo, hi) == IF lo > hi THEN {<<>>} ELSE Asc(lo + 1, hi) \cup {<<lo>> \o s : s \in Asc(lo + 1, hi)}
+IdxOK(c, vs, idx) ==
+  /\ \A k \in 1..(Len(idx) - 1) : idx[k] < idx[k + 1]
+  /\ \A k \in 1..Len(idx) : idx[k] \in 1..Len(c) /\ MaySubmit(c, vs, idx[k])
+  /\ \A i \in 1..Len(c) : MustSubmit(c, vs, i) => \E k \in 1..Len(idx) : idx[k] = i
+(* "If a value has not been set for all required fields ok will be false": decided by the fields that are *)
+(* not free; open as soon as a free field is required                                                     *)
+SubmitOKs(c, vs) ==
+  IF \E i \in 1..Len(c) : ~Free(c, i) /\ c[i].req /\ ~HasVal(c, vs, i) THEN {FALSE}
+  ELSE IF \E i \in 1..Len(c) : Free(c, i) /\ c[i].req THEN BOOLEAN ELSE {TRUE}
+(* acceptable value lists of a submitted field that is not free *)
 SubmitAcc(c, vs, f) ==
   IF GetVal(c, vs, f.var) # NoVal THEN AccVals(f.ft, GetVal(c, vs, f.var))
   ELSE {f.def, NonEmpty(f.def)}                         \* required but without a value: sent as it is
@@ -125,50 +218,76 @@ Redecoded(c) == [i \in 1..Len(c) |-> [c[i] EXCEPT !.def = DefNorm(c[i])]]
 (* A form of type submit IS a submission: its own encoding may be the submission of   *)
 (* its fields (what Submit returns: the fields that have a value or are required,     *)
 (* each with its value; <required/> is not needed in a submission) or all fields as   *)
-(* they are - the property does not say which, both are accepted.                     *)
+(* they are - the property does not say which, both are accepted.  nc: the fields of  *)
+(* the decoded form.                                                                  *)
+EncOK(c, vs, ty, nc) ==
+  \/ nc = Redecoded(c)
+  \/ /\ ty = "submit"
+     /\ \E idx \in Asc(1, Len(c)) :
+          /\ IdxOK(c, vs, idx) /\ Len(nc) = Len(idx)
+          /\ \A k \in 1..Len(idx) :
+               LET f == c[idx[k]] IN
+               /\ nc[k].ft = f.ft /\ nc[k].var = f.var
+               /\ Free(c, idx[k]) \/ (nc[k].def \in SubmitAcc(c, vs, f) /\ nc[k].req \in {f.req, FALSE})
 RECURSIVE SeqProd(_)
 SeqProd(ss) == IF ss = <<>> THEN {<<>>} ELSE {<<h>> \o t : h \in ss[1], t \in SeqProd(Tail(ss))}
 SubmissionForms(c, vs) ==
-  LET sub == Submitted(c, vs)
-  IN SeqProd([i \in 1..Len(sub) |->
-                {[sub[i] EXCEPT !.def = d, !.req = r] : d \in SubmitAcc(c, vs, sub[i]), r \in {sub[i].req, FALSE}}])
-OwnEncodings(c, vs, ty) == {Redecoded(c)} \cup (IF ty = "submit" THEN SubmissionForms(c, vs) ELSE {})
+  UNION {SeqProd([k \in 1..Len(idx) |->
+                    LET f == c[idx[k]] IN
+                    IF Free(c, idx[k]) THEN {[f EXCEPT !.def = DefNorm(f), !.req = FALSE]}
+                    ELSE {[f EXCEPT !.def = d, !.req = r] : d \in SubmitAcc(c, vs, f), r \in {f.req, FALSE}}])
+         : idx \in {x \in Asc(1, Len(c)) : IdxOK(c, vs, x)}}
+EncCands(c, vs, ty) == {Redecoded(c)} \cup (IF ty = "submit" THEN SubmissionForms(c, vs) ELSE {})
+
+(* deviation EncodeByFieldType: the value that Get finds under the field's NAME (the first field of that name *)
+(* decides) is converted with the Go type of the field's OWN type                                            *)
+FirstOf(c, var) == c[CHOOSE i \in Named(c, var) : \A j \in Named(c, var) : i <= j]
+LookedUp(c, vs, var) == IF vs[var] # NoVal THEN vs[var] ELSE Default(FirstOf(c, var))
+AssertionFails(c, vs) ==
+  \E i \in 1..Len(c) : LET v == LookedUp(c, vs, c[i].var) IN
+     c[i].ft # "fixed" /\ (v # NoVal \/ c[i].req) /\ v \notin {NoVal, Undef} /\ ~Fits(c[i].ft, v.k)
+(* deviation ScannerLimit: the text of a submitted text-multi field loses lines *)
+LosesText(c, vs) ==
+  \E i \in 1..Len(c) : c[i].ft = "text-multi" /\ ~Free(c, i) /\ HasVal(c, vs, i)
+       /\ LET tv == GetVal(c, vs, c[i].var) IN tv.k = "string" /\ SubVals("text-multi", tv) # LineSyms(tv.v[1])
 
 (* ------------------------------------------------------------------ actions *)
+(* TLC explores BOTH sides of a disjunction (and every witness of a quantifier) that occurs in an action: a state *)
+(* predicate used as a guard is wrapped, so that it is evaluated as an expression                               *)
+Holds(p) == IF p THEN TRUE ELSE FALSE
 Init == cfg \in Configs /\ vals = [v \in Vars |-> NoVal] /\ nops = 0 /\ last = [op |-> "new"] /\ ftype = "form"
 
-Set(var, tv) ==
-  /\ nops < MaxOps
-  /\ LET isf == IsField(cfg, var)
-         fits == IF isf THEN Fits(FieldOf(cfg, var)[1].ft, tv.k) ELSE TRUE
-     IN /\ vals' = IF fits THEN [vals EXCEPT ![var] = tv] ELSE vals
-        /\ last' = [op |-> "set", var |-> var, tv |-> tv, ok |-> isf /\ fits, err |-> ~fits]
+Set(var, tv, err) ==
+  /\ nops < MaxOps /\ err \in SetErrs(cfg, var, tv)
+  /\ vals' = IF err THEN vals ELSE [vals EXCEPT ![var] = tv]
+  /\ last' = [op |-> "set", var |-> var, tv |-> tv, ok |-> IsField(cfg, var) /\ ~err, err |-> err]
   /\ nops' = nops + 1 /\ UNCHANGED <<cfg, ftype>>
 
-Get(var) ==
-  /\ nops < MaxOps
-  /\ LET g == GetVal(cfg, vals, var) IN last' = [op |-> "get", var |-> var, ok |-> g # NoVal, tv |-> g]
+Get(var, res) ==
+  /\ nops < MaxOps /\ Holds(GetOK(cfg, vals, var, res))
+  /\ last' = [op |-> "get", var |-> var, ok |-> res # NoVal, tv |-> res]
   /\ nops' = nops + 1 /\ UNCHANGED <<cfg, vals, ftype>>
 
-Raw(var) ==
-  /\ nops < MaxOps
-  /\ last' = [op |-> "raw", var |-> var, ok |-> IsField(cfg, var),
-              v |-> IF IsField(cfg, var) THEN FieldOf(cfg, var)[1].def ELSE <<>>]
+Raw(var, res) ==
+  /\ nops < MaxOps /\ Holds(RawOK(cfg, var, res))
+  /\ last' = [op |-> "raw", var |-> var, ok |-> IsField(cfg, var), v |-> res]
   /\ nops' = nops + 1 /\ UNCHANGED <<cfg, vals, ftype>>
 
-Submit ==
+Submit(ok, idx) ==
   /\ nops < MaxOps
-  /\ last' = [op |-> "submit", ok |-> SubmitOK(cfg, vals), fields |-> Submitted(cfg, vals)]
+  /\ IF "EncodeByFieldType" \in Dev /\ AssertionFails(cfg, vals) THEN last' = [op |-> "panic"]
+     ELSE /\ ok \in SubmitOKs(cfg, vals) /\ Holds(IdxOK(cfg, vals, idx))
+          /\ last' = [op |-> "submit", ok |-> ok, idx |-> idx, lost |-> LosesText(cfg, vals)]
   /\ nops' = nops + 1 /\ UNCHANGED <<cfg, vals, ftype>>
 
 Encode ==            \* TokenReader of the form itself: no effect, must be well-formed
   /\ nops < MaxOps /\ last' = [op |-> "tokenreader"] /\ nops' = nops + 1 /\ UNCHANGED <<cfg, vals, ftype>>
 
 (* decode the form's own encoding with the type attribute of ty: the result is a form *)
-(* of that type with the same fields and no values                                    *)
-Unmarshal(ty) ==
-  /\ nops < MaxOps
-  /\ cfg' \in OwnEncodings(cfg, vals, ftype) /\ vals' = [v \in Vars |-> NoVal] /\ ftype' = ty
+(* of that type with the fields nc and no values                                      *)
+Unmarshal(ty, nc) ==
+  /\ nops < MaxOps /\ Holds(EncOK(cfg, vals, ftype, nc))
+  /\ cfg' = nc /\ vals' = [v \in Vars |-> NoVal] /\ ftype' = ty
   /\ last' = [op |-> "unmarshal", ty |-> ty, ok |-> TRUE] /\ nops' = nops + 1
 (* "unmarshalling arbitrary XML returns a value or an error": a document whose type is *)
 (* none of the four defined ones may be refused; the caller keeps the form it had      *)
@@ -176,31 +295,50 @@ UnmarshalRefused(ty) ==
   /\ nops < MaxOps /\ ty \notin ValidTypes
   /\ last' = [op |-> "unmarshal", ty |-> ty, ok |-> FALSE] /\ nops' = nops + 1 /\ UNCHANGED <<cfg, vals, ftype>>
 
-Next == (\E var \in Vars, tv \in SetValues : Set(var, tv)) \/ (\E var \in Vars : Get(var) \/ Raw(var))
-        \/ Submit \/ Encode \/ (\E ty \in FormTypes : Unmarshal(ty) \/ UnmarshalRefused(ty))
+Next == (\E var \in VarsOf(cfg), tv \in SetValues, err \in BOOLEAN : Set(var, tv, err))
+        \/ (\E var \in VarsOf(cfg) : (\E res \in GetCands(cfg, vals, var) : Get(var, res))
+                                     \/ (\E r \in RawCands(cfg, var) : Raw(var, r)))
+        \/ (\E ok \in BOOLEAN, idx \in Asc(1, Len(cfg)) : Submit(ok, idx))
+        \/ Encode
+        \/ (\E ty \in FormTypes : (\E nc \in EncCands(cfg, vals, ftype) : Unmarshal(ty, nc)) \/ UnmarshalRefused(ty))
 Spec == Init /\ [][Next]_fvars
 
 (* ------------------------------------------------------------------ properties (design check) *)
 TypeOK == /\ \A v \in Vars : vals[v] \in SetValues \cup {NoVal}
           /\ nops \in 0..MaxOps /\ ftype \in FormTypes
-(* a stored value always fits its field: Set succeeds iff the type fits *)
-C19_StoredFits == \A v \in Vars : (vals[v] # NoVal /\ IsField(cfg, v)) => Fits(FieldOf(cfg, v)[1].ft, vals[v].k)
+          /\ \A i \in 1..Len(cfg) : cfg[i].var \in Vars
+(* a stored value always fits a field of its name: Set succeeds iff the type fits *)
+C19_StoredFits == \A v \in Vars : (vals[v] # NoVal /\ IsField(cfg, v)) => \E i \in Named(cfg, v) : Fits(cfg[i].ft, vals[v].k)
 C19_SetIffFits == last.op = "set" =>
-                    /\ (last.err <=> (IsField(cfg, last.var) /\ ~Fits(FieldOf(cfg, last.var)[1].ft, last.tv.k)))
+                    /\ last.err \in SetErrs(cfg, last.var, last.tv)
+                    /\ (~Amb(cfg, last.var) => (last.err <=> (IsField(cfg, last.var) /\ ~Fits(TheField(cfg, last.var).ft, last.tv.k))))
                     /\ (last.ok <=> (IsField(cfg, last.var) /\ ~last.err))
                     /\ (~last.err => vals[last.var] = last.tv)
 (* Get after Set returns the value *)
-C19_GetAfterSet == \A v \in Vars : vals[v] # NoVal => GetVal(cfg, vals, v) = vals[v]
+C19_GetAfterSet == \A v \in Vars : vals[v] # NoVal => (GetCands(cfg, vals, v) = {vals[v]} /\ GetOK(cfg, vals, v, vals[v]))
 C19_GetReportsIt == last.op = "get" => (last.ok <=> last.tv # NoVal)
-(* a fixed field is never set and never submitted; a submission names only fields with a value or required *)
+(* a fixed field is never set and never submitted; a submission names the fields with a value or required *)
 C19_SubmitShape == last.op = "submit" =>
-                     /\ \A i \in 1..Len(last.fields) : last.fields[i].ft # "fixed"
-                     /\ (last.ok <=> \A i \in 1..Len(cfg) : cfg[i].req => GetVal(cfg, vals, cfg[i].var) # NoVal)
-                     /\ \A i \in 1..Len(cfg) : (vals[cfg[i].var] # NoVal /\ cfg[i].ft # "fixed")
-                                                  => \E j \in 1..Len(last.fields) : last.fields[j] = cfg[i]
+                     /\ \A k \in 1..Len(last.idx) : cfg[last.idx[k]].ft # "fixed"
+                     /\ (\A i \in 1..Len(cfg) : ~Free(cfg, i)) =>
+                          (last.ok <=> \A i \in 1..Len(cfg) : cfg[i].req => GetVal(cfg, vals, cfg[i].var) # NoVal)
+                     /\ (\E i \in 1..Len(cfg) : ~Free(cfg, i) /\ cfg[i].req /\ GetVal(cfg, vals, cfg[i].var) = NoVal) => ~last.ok
+                     /\ \A i \in 1..Len(cfg) : (~Free(cfg, i) /\ vals[cfg[i].var] # NoVal /\ cfg[i].ft # "fixed")
+                                                  => \E k \in 1..Len(last.idx) : last.idx[k] = i
+                     /\ \A k \in 1..Len(last.idx) : ~Free(cfg, last.idx[k]) =>
+                          (GetVal(cfg, vals, cfg[last.idx[k]].var) # NoVal \/ cfg[last.idx[k]].req)
 (* every submitted value list consists of symbols (the normal forms exist in the symbol table) *)
-C19_SubmitValuesDefined == \A i \in 1..Len(cfg) :
-                             \A vs \in SubmitAcc(cfg, vals, cfg[i]) : \A k \in 1..Len(vs) : vs[k] \in DOMAIN StrSym
+C19_SubmitValuesDefined == \A i \in 1..Len(cfg) : ~Free(cfg, i) =>
+                             \A vs \in SubmitAcc(cfg, vals, cfg[i]) : \A k \in 1..Len(vs) : Known(vs[k])
+(* the lines of a submitted multi-line text are the text: nothing is lost or cut *)
+C19_SubmitLossless == last.op = "submit" => ~last.lost
+C19_NoPanic == last.op # "panic"
+(* the candidates the design check draws from are acceptable results (the actions would silently drop the others) *)
+C19_CandidatesAcceptable ==
+  nops <= 1 =>
+    /\ \A nc \in EncCands(cfg, vals, ftype) : EncOK(cfg, vals, ftype, nc)
+    /\ \A v \in VarsOf(cfg) : GetCands(cfg, vals, v) # {} /\ \A res \in GetCands(cfg, vals, v) : GetOK(cfg, vals, v, res)
+    /\ \E idx \in Asc(1, Len(cfg)) : IdxOK(cfg, vals, idx)
 (* Set never changes the fields; only Unmarshal does, and it is idempotent *)
 C19_FieldsStable == [][(last'.op # "unmarshal" => cfg' = cfg) /\ (Redecoded(Redecoded(cfg)) = Redecoded(cfg))]_fvars
 (* only decoding changes the type of the form held; decoding forgets the values; a refused document changes nothing *)
@@ -209,5 +347,18 @@ C19_TypeStable == [][/\ (last'.op # "unmarshal" => ftype' = ftype)
                            IF last'.ok THEN ftype' = last'.ty /\ \A v \in Vars : vals'[v] = NoVal
                            ELSE ftype' = ftype /\ cfg' = cfg /\ vals' = vals)]_fvars
 (* the laws of Set / Get hold for a decoded form of every type: every (type, operation) pair is reachable *)
-C19_DecodedFormsUsable == \A v \in Vars : (vals[v] # NoVal /\ ftype # "form") => GetVal(cfg, vals, v) = vals[v]
+C19_DecodedFormsUsable == \A v \in Vars : (vals[v] # NoVal /\ ftype # "form") => GetOK(cfg, vals, v, vals[v])
+(* the configurations hold what the ambiguity dimension promises *)
+C19_AmbiguityCovered ==
+  LET Kind(ft) == CASE ft = "boolean" -> "bool" [] ft = "jid-single" -> "jid" [] ft = "jid-multi" -> "jids"
+                    [] ft = "list-multi" -> "strings" [] ft = "fixed" -> "none" [] OTHER -> "string"
+      \* <<kind of the earlier field, kind of the later field>> of every two fields that share a name
+      Pairs == UNION {{<<Kind(c[p[1]].ft), Kind(c[p[2]].ft)>> :
+                         p \in {q \in (1..Len(c)) \X (1..Len(c)) : q[1] < q[2] /\ c[q[1]].var = c[q[2]].var}} : c \in Configs}
+  IN /\ \A k \in {"bool", "string", "jid", "jids", "strings"} : (\E p \in Pairs : p[1] = k /\ p[2] # k) /\ (\E q \in Pairs : q[2] = k /\ q[1] # k)
+     /\ <<"none", "none">> \in Pairs /\ <<"string", "string">> \in Pairs
+     /\ \E c \in Configs : \E v \in Vars : Cardinality(Named(c, v)) >= 3
+     /\ \E c \in Configs : (\E v \in Vars : Amb(c, v)) /\ (\E i \in 1..Len(c) : ~Amb(c, c[i].var) /\ c[i].req)
+     /\ \E c \in Configs : \E i \in 1..Len(c) : Amb(c, c[i].var) /\ c[i].req /\ \E j \in 1..(i - 1) : c[j].var = c[i].var
+ASSUME C19_AmbiguityCovered
 =============================================================================
